@@ -27,7 +27,9 @@ CALLS = [("set_mathml", {"op": "set_mathml", "mathml": EXPR}), ("speech", {"op":
 CONFIGS = [{"Language": "en", "SpeechStyle": "ClearSpeak", "BrailleCode": "Nemeth"},
            {"Language": "es", "SpeechStyle": "SimpleSpeak", "BrailleCode": "UEB"},
            {"Language": "en-gb", "SpeechStyle": "ClearSpeak", "BrailleCode": "CMU"}]
-SHAPES = ["deleted", "empty", "truncated", "scalar", "wrongtype", "badxpath", "unknownkey"]
+# truncated: cut at a seeded item boundary; -early / -late: after the first item / before the last one (a file that is still well
+# formed and only misses rules or definitions: the error, if any, comes later and from somewhere else - 5a238b4, b992cc4)
+SHAPES = ["deleted", "empty", "truncated", "truncated-early", "truncated-late", "scalar", "wrongtype", "badxpath", "unknownkey"]
 
 
 def damaged_content(rel, text, shape, rng):
@@ -42,7 +44,7 @@ def damaged_content(rel, text, shape, rng):
         return "just a string\n"
     if shape == "wrongtype":
         return "- a\n- b\n" if is_prefs else "key: value\nother: 3\n"
-    if shape == "truncated":
+    if shape.startswith("truncated"):
         lines = text.splitlines(keepends=True)
         if is_prefs:
             starts = [i for i, l in enumerate(lines) if re.match(r"^[A-Za-z]", l)]
@@ -55,7 +57,7 @@ def damaged_content(rel, text, shape, rng):
             starts = [i for n, i in cand if n == ind]
         if len(starts) < 3:
             return text[: len(text) // 2]
-        cut = starts[rng.randrange(1, len(starts) - 1)]
+        cut = starts[1] if shape == "truncated-early" else starts[-1] if shape == "truncated-late" else starts[rng.randrange(1, len(starts) - 1)]
         return "".join(lines[:cut])
     if shape == "badxpath":
         if "unicode" in base:
@@ -229,6 +231,12 @@ def run(tier):
             if rel in ("definitions.yaml", "Braille/definitions.yaml") or "SharedRules" in rel or rel.startswith("Intent/"):
                 first.append((0, rel, "scalar", "All", True))
                 first.append((0, rel, "truncated", "All", False))
+        # every file cut after its first item (well formed, nearly everything missing), with file checking on
+        for rel in files[0]:
+            first.append((0, rel, "truncated-early", "All", False))
+        # preferences set through the API and a fault in prefs.yaml (a configuration whose language is not the file's)
+        for shape in ("deleted", "truncated"):
+            first.append((1, "prefs.yaml", shape, "All", False))
         cases = first + rng.sample(cases, 40)
     scripts = []
     # reference sessions (no fault) for each configuration and mode
